@@ -148,6 +148,7 @@ type Sched struct {
 	panicVal    any
 	panicStk    string
 	Values      map[string]any // per-execution storage for shims/harness
+	inQuiet     bool
 	choose      func(p *Point) int
 	lastKeyText string
 	active      bool     // a thread is running (the scheduler goroutine is blocked)
@@ -415,6 +416,53 @@ func (s *Sched) enabled() []transition {
 		}
 	}
 	return out
+}
+
+// QuietExcept reports whether nothing is enabled apart from the threads for which skip holds:
+// no other thread can take a step and no environment transition (timer, ...) is pending.
+// Harnesses use it for "the client waits until the system under test is idle" operations
+// (the condition of an Ext op); nested evaluation (two such waiters) answers false.
+func (s *Sched) QuietExcept(skip func(*Thread) bool) bool {
+	if s.inQuiet {
+		return false
+	}
+	s.inQuiet = true
+	defer func() { s.inQuiet = false }()
+	for _, t := range s.threads {
+		if t.done || skip(t) {
+			continue
+		}
+		op := t.pend
+		if op == nil {
+			return false
+		}
+		switch op.kind {
+		case opStart, opResume, opClose:
+			return false
+		case opExt:
+			if op.extEnabled() {
+				return false
+			}
+		case opComm:
+			if op.hasDefault {
+				return false
+			}
+			for i, c := range op.cases {
+				if c.ch == nil {
+					continue
+				}
+				if _, ok := s.caseReady(t, i, c); ok {
+					return false
+				}
+			}
+		}
+	}
+	for _, e := range s.envs {
+		if len(e.Enabled()) > 0 {
+			return false
+		}
+	}
+	return true
 }
 
 // caseReady decides whether case i of thread t's pending communication can complete now.
